@@ -431,6 +431,10 @@ def formD (j : Json) : Except String Json := do
       | some vs => Json.mkObj [("values", Json.arr (vs.map showV).toArray)])
   | _ => throw "bad-form-op"
 
+/-- every code point the comment model takes for white space (compared with unicode.IsSpace over all of Unicode) -/
+def commentSpacesD (_ : Json) : Except String Json :=
+  pure (Json.arr (((List.range 0x110000).filter Comment.isSpace).map fun (c : Nat) => Json.num (JsonNumber.fromNat c)).toArray)
+
 /-- `SortedSchemaKeys`: entries as {"k": [bytes…], "o": integer or null}; result = the keys in order. -/
 def schemaKeysD (j : Json) : Except String Json := do
   let es ← (← j.getObjVal? "entries").getArr?
@@ -638,6 +642,7 @@ def dispatch (fn : String) (j : Json) : Except String Json :=
   | "combineParams" => combineParamsD j
   | "schemaKeys" => schemaKeysD j
   | "comment" => commentD j
+  | "commentSpaces" => commentSpacesD j
   | "refPath" => refPathD j
   | "form" => formD j
   | "parseInt" => parseIntD j
